@@ -116,7 +116,7 @@ def cases(desc):
                     variants.append({"dir": "up", "path": "upload", "style": style})
                     variants.append({"dir": "up", "path": "upload-declared", "style": style})
                     for buffering in (0, 3, 7, 8, 1024):
-                        for rk in ("all", "ones", "random", "readinto"):
+                        for rk in ("all", "ones", "random", "readinto", "mixed"):
                             variants.append({"dir": "up", "path": "open", "style": style, "buffering": buffering, "reads": rk})
                     variants.append({"dir": "up", "path": "text", "style": style, "buffering": 16})
         if not full:
@@ -271,6 +271,17 @@ def do_upload(rig, c, index, sub):
             guard += 1
             if guard > 2 * c["n"] + 1000:
                 raise RuntimeError("read loop does not terminate")
+            if c["reads"] == "mixed":
+                # a few sized reads first (small buffers), then everything that is left in one go
+                for _ in range(rng.randint(1, 3)):
+                    if rng.random() < 0.5:
+                        buf = bytearray(rng.randint(1, 6))
+                        k = fp.readinto(buf)
+                        out += buf[:k or 0]
+                    else:
+                        out += fp.read(rng.randint(1, 5)) or b""
+                out += fp.read() if not raw else fp.readall()
+                break
             if c["reads"] == "all":
                 if raw:
                     chunk = fp.read()
